@@ -50,4 +50,12 @@ theorem renderer_signatures :
     Vector_to_string_signature = ["self", "*", "max_elements=None"] ∧
     ListOfDicts_to_string_signature = ["self", "*", "max_items=None"] := ⟨rfl, rfl, rfl⟩
 
+/-! ### evaluation order -/
+
+/-- `upad` measures every string for the common width BEFORE the loop that pads (so an empty list raises at `max`, a case the
+    inlined term cannot show: `Eval.C20.upad_width_of_empty_raises`); `utruncate` is a bounded `for` over `range`. -/
+theorem width_helpers_call_order :
+    util_upad_call_order = ["ulen", "max", "ulen"] ∧ util_utruncate_call_order = ["len", "range", "ulen"] ∧
+    util_ulen_call_order = ["wcwidth.wcswidth"] := ⟨rfl, rfl, rfl⟩
+
 end DI.Tie.C20
